@@ -848,6 +848,12 @@ namespace
             runtime.__logmsg(err::ReturningNil(runtime.context_active().current_frame().diag_info_from_position()));
             return {};
         }
+        if (from >= (int)arr->size())
+        {
+            runtime.__logmsg(err::IndexOutOfRangeWeak(runtime.context_active().current_frame().diag_info_from_position(), arr->size(), from));
+            runtime.__logmsg(err::ReturningNil(runtime.context_active().current_frame().diag_info_from_position()));
+            return {};
+        }
         if (to >= (int)arr->size())
         {
             runtime.__logmsg(err::IndexOutOfRangeWeak(runtime.context_active().current_frame().diag_info_from_position(), arr->size(), to));
